@@ -174,6 +174,24 @@ def generate(g, h):
 
     g.raw('-- sshuttle/firewall.py: main()')
 
+    def reader_drops_unfinished():
+        """_read_next_string_line at end of input inside a line: `return` gives the unfinished line up
+        (True); `break`, or no joining loop at all, hands the piece out as if it were a line (False)."""
+        f = h.func(fw, 'main._read_next_string_line')
+        for n in ast.walk(f):
+            if isinstance(n, ast.While):
+                for x in ast.walk(n):
+                    if isinstance(x, ast.If) and 'piece' in ast.dump(x.test):
+                        kinds = [type(y).__name__ for b in x.body for y in ast.walk(b)
+                                 if isinstance(y, (ast.Return, ast.Break))]
+                        if kinds == ['Return']:
+                            return True
+                        if kinds == ['Break']:
+                            return False
+                        raise ValueError('unexpected end-of-input handling: %r' % (kinds,))
+        return False
+    g.boolean('FW_READER_DROPS_UNFINISHED', reader_drops_unfinished)
+
     def main_try():
         f = h.func(fw, 'main')
         # the outermost try that has a finally or handlers and contains setup_firewall
